@@ -84,13 +84,17 @@ def add_obs(kind, where, **kw):
 
 def norm(src):
     d = ast.dump(ast.parse(src, mode="eval").body).replace("Store()", "Load()")
+    # (a[:2] and a[None:2] are one and the same target - the compiler emits the same code for both)
+    d = d.replace("lower=Constant(value=None), ", "").replace("upper=Constant(value=None), ", "")
+    d = d.replace("Slice(upper=Constant(value=None))", "Slice()").replace(", upper=Constant(value=None))", ")")
     return d.replace("List(", "Tuple(")
 
 
 # target forms the property says are "always rendered rather than dropped"; for every other form
 # (walrus / arithmetic in a subscript, keyword call, slice) varname may legitimately be None
 SUPPORTED = {"maybe_attr", "maybe_sub", "maybe_unpack", "name", "attr", "sub", "subname", "tuple", "star", "call_sub", "nested_attr", "list", "nested_unpack",
-             "star_mid", "sub_chain", "attr_sub", "call_args", "star_first", "tuple_attr_sub", "global_name"}
+             "star_mid", "sub_chain", "attr_sub", "call_args", "star_first", "tuple_attr_sub", "global_name", "call_local",
+             "sub_ellipsis"}
 
 
 def varname_ok(varname, meta, m, frame):
@@ -715,6 +719,12 @@ class R:
             return "ns.sub.slots[key]", None
         if form == "call_args":
             return "pick(dct, 'sub', key)['k%d']" % k, None
+        if form == "call_local":
+            return "lpick(dct, 'sub', key)['k%d']" % k, None
+        if form == "sub_ellipsis":
+            return "dct[...]", None
+        if form == "open_slice":
+            return ["lst[:2]", "lst[1:]", "lst[:]"][k % 3], "(7,)"
         if form == "star_first":
             return "(*r%d, t%d)" % (k, k), "(1, 2, 3)"
         if form == "tuple_attr_sub":
@@ -919,6 +929,7 @@ class R:
             if it.get("exitname") == "Eq":
                 # a different object that compares equal to the manager, held in a local that comes early in f_locals
                 self.emit(1, "eqdecoy%d = MEq(%d)" % (it["m"], it["m"]))
+        self.emit(1, "lpick = pick")
         self.emit(1, "ns = NS(); ns.sub = NS(); ns.sub.slots = {}; dct = S.dct; key = 'kk'; lst = [0, 1, 2, 3]; "
                      "grid = [[0, 0], [0, 0]]")
         if any(str(it.get("target", "")).startswith("maybe_") for it in _all_items(self.p["body"])):
